@@ -77,12 +77,22 @@ DecText(h) ==
       s == IF h < 0 THEN "-" ELSE ""
   IN  IF a % 2 = 0 THEN s \o ToString(a \div 2) ELSE s \o ToString(a \div 2) \o ".5"
 
+\* an item inside the text of a tuple: strings are quoted, bytes only tell their size
+ItemText(v) ==
+  CASE v.t = "null" -> "null"
+    [] v.t = "bool" -> IF v.v THEN "TRUE" ELSE "FALSE"
+    [] v.t = "int"  -> ToString(v.v)
+    [] v.t = "dec"  -> DecText(v.h)
+    [] v.t = "str"  -> "\"" \o v.v \o "\""
+    [] v.t = "raw"  -> "bytes[" \o ToString(Len(v.b)) \o "]"
+    [] OTHER        -> "?"
 PrintText(v) ==
   CASE v.t = "null" -> "null"
     [] v.t = "bool" -> IF v.v THEN "TRUE" ELSE "FALSE"
     [] v.t = "int"  -> ToString(v.v)
     [] v.t = "dec"  -> DecText(v.h)
     [] v.t = "str"  -> v.v
+    [] v.t = "tup"  -> LET J[i \in 0..Len(v.v)] == IF i = 0 THEN "" ELSE IF i = 1 THEN ItemText(v.v[1]) ELSE J[i - 1] \o ", " \o ItemText(v.v[i]) IN J[Len(v.v)]
     [] OTHER        -> "?"
 
 \* number of references to object id held inside a value (variables, table elements, tuple items)
@@ -687,7 +697,10 @@ RunStepwise(prog, S) ==
 
 \* The bloc command in interactive mode: like RunStepwise, and a top-level return prints the returned value
 \* on a line of its own (output_cli).
-RvLine(v) == IF IsNull(v) THEN "null\n" ELSE IF v.t \in {"bool", "int", "dec", "str"} THEN PrintText(v) \o "\n" ELSE ""
+RvLine(v) == IF IsNull(v) THEN "null\n" ELSE IF v.t \in {"bool", "int", "dec", "str", "tup"} THEN PrintText(v) \o "\n"
+             \* a table of scalars is shown by its element type and size
+             ELSE IF v.t = "tab" /\ v.ty.l = 1 /\ v.ty.m \in {"bool", "int", "dec", "str"} THEN "[" \o TypeName(ElemType(v.ty)) \o "][" \o ToString(Len(v.v)) \o "]\n"
+             ELSE ""
 RECURSIVE CliFrom(_, _, _)
 CliFrom(prog, S, nerr) ==
   IF prog = <<>> THEN [S |-> S, nerr |-> nerr]
@@ -696,7 +709,7 @@ CliFrom(prog, S, nerr) ==
        IN  CliFrom(Tail(prog), [S2 EXCEPT !.sig = "", !.err = NoErr], IF S1.sig = "err" THEN nerr + 1 ELSE nerr)
 RunCliInteractive(prog, S) == CliFrom(prog, [S EXCEPT !.sig = "", !.err = NoErr, !.rv = VNil, !.hasrv = FALSE, !.out = ""], 0)
 \* what `bloc file` prints for the returned value of the program (main.cpp output())
-RvText(S) == IF S.sig = "ret" /\ S.hasrv THEN (IF IsNull(S.rv) THEN "null" ELSE IF S.rv.t \in {"bool", "int", "dec", "str"} THEN PrintText(S.rv) ELSE "") ELSE ""
+RvText(S) == IF S.sig = "ret" /\ S.hasrv THEN (IF IsNull(S.rv) THEN "null" ELSE IF S.rv.t \in {"bool", "int", "dec", "str", "tup"} THEN PrintText(S.rv) ELSE "") ELSE ""
 
 (* ------------------------------- rendering ---------------------------- *)
 RECURSIVE RE_(_), RArgs(_), RS(_), RList(_), RHandlers(_), RIfs(_, _)
